@@ -74,7 +74,9 @@ class C17(FsProp):
                                 # system temp directory (a rename from there is impossible)
                                 "other_fs": k % 3 == 0,
                                 # the metafile need not be called *.torrent
-                                "meta_name": ("m.torrent", "fetched.tmp", "noext", "x.y.torrent", "m.torrent.tmp")[k % 5]})
+                                "meta_name": ("m.torrent", "fetched.tmp", "noext", "x.y.torrent", "m.torrent.tmp")[k % 5],
+                                # the metafile path is a symbolic link to a file kept elsewhere
+                                "meta_symlink": k % 4 == 1})
         return out
 
     def corruptions(self, recs):
